@@ -202,12 +202,10 @@ def r4_bootstraps(ck, repo, nf):
         v = d.value
         if isinstance(v, ast.Subscript) and dotted(v.value) == "shuffled_indices" and isinstance(v.slice, ast.Tuple) and len(v.slice.elts) == 2 and isinstance(v.slice.elts[1], ast.Slice):
             up = v.slice.elts[1].upper
-            usc = Scope(None, mi, {}, q)  # names stay names; one level of local definition is followed below
-            upe = up
-            if isinstance(up, ast.Name):
-                uds = cfg.defs_of(d.node, up.id)
-                upe = uds[0].value if len(uds) == 1 and uds[0].kind == "assign" else up
-            upc = nf.poly(upe, usc, None).canon() if up is not None else ""
+            usc = Scope(None, mi, {}, q)
+            isc = Scope(cfg, mi, {}, q)
+            isc.opaque_names = {"bootstrap_indices", "batch_size", "shuffled_indices"}
+            upc = nf.poly(up, isc, d.node).canon() if up is not None else ""
             guards = [(t, tv) for b, lab in cfg.control_deps(d.node) if cfg.nodes[b].kind == "test" for t, tv in cfg._lits(cfg.nodes[b].ast.test, lab, b)]
             neg = upc == "-mod(bootstrap_indices.shape[1], batch_size)"
             guarded = any(tv and isinstance(up, ast.Name) and t == up.id for t, tv in guards)
